@@ -12,7 +12,7 @@ from hypothesis import strategies as st
 
 from .. import gen, ops
 from ..bb import REPO, bnet_text
-from ..runner import VERIF, Result
+from ..runner import OUT_ROOT, VERIF, Result
 
 ID = "C19"
 LEVEL = "exploration"
@@ -100,7 +100,9 @@ def simplifications(case):
 
 
 def _run_sub(job, hashseed):
-    with tempfile.NamedTemporaryFile("w", suffix=".json", delete=False, dir=os.environ.get("TMPDIR", "/tmp")) as f:
+    tmpdir = os.path.join(OUT_ROOT, "tmp")
+    os.makedirs(tmpdir, exist_ok=True)
+    with tempfile.NamedTemporaryFile("w", suffix=".json", delete=False, dir=tmpdir) as f:
         json.dump(job, f)
         path = f.name
     try:
